@@ -53,9 +53,17 @@ pub fn draw_client_op(sw: &Swarm, w: &World, rng: &mut Rng) -> ClientOp {
             counter: *rng.pick(&[0u64, 5, 10, 999, 1_000_000, 10_000_000_000, 40_000_000_000]),
             arg: rng.below(1000) as u32,
         },
+        5 if rng.chance(1, 3) => ClientOp::SendTx {
+            // a small pool of transactions: the same payload again, or the same transaction
+            // with another witness (same txid, other bytes), right after it was forwarded
+            seed: rng.below(3),
+            kind: *rng.pick(&[0u8, 1, 1, 10, 10]),
+            net: 0,
+            reject: false,
+        },
         5 => ClientOp::SendTx {
             seed: rng.next_u64(),
-            kind: rng.below(10) as u8,
+            kind: rng.below(11) as u8,
             net: *rng.pick(&[0u8, 0, 0, 0, 1, 2]),
             reject: rng.chance(1, 12),
         },
@@ -412,6 +420,21 @@ impl World {
             }
         } else {
             self.note_fee_candidate();
+            if let Some((t, v)) = &self.eager_expected {
+                if *t == tip && !self.lazy_fees {
+                    self.stats.probe("eager_exact_compared");
+                    if r != *v {
+                        return Err(violation(
+                            "C15",
+                            "fee-percentiles-wrong",
+                            format!(
+                                "eager mode, best tip #{tip}: the percentiles were not computed (and kept) when this tip was first observed: got (min {:?}, median {:?}, max {:?}, len {}), the message that made it the best tip had to cache (min {:?}, median {:?}, max {:?})",
+                                r.first(), r.get(50), r.last(), r.len(), v.first(), v.get(50), v.last()
+                            ),
+                        ));
+                    }
+                }
+            }
             let ok = if window.is_empty() {
                 // nothing to report for this tip: nothing, or a previous answer
                 r.is_empty() || self.fee_candidates.iter().any(|(_, v)| *v == r)
@@ -522,6 +545,25 @@ impl World {
                     "client-cost-below-maximum",
                     format!("endpoint {endpoint} on {}: ic-cdk-bitcoin-canister attaches {cdk_cost} cycles, the canister's default maximum is {maximum}", self.network),
                 ));
+            }
+        }
+        // ... in either spelling of the network (`mainnet` / `Mainnet`)
+        if !self.fees_explicit && maximum > 0 && matches!(endpoint, 0 | 1 | 2 | 3) {
+            for spelled in canister::net_in_request_spellings(net) {
+                let c = match endpoint {
+                    0 => ic_cdk_bitcoin_canister::cost_get_utxos(&GetUtxosRequest { address: a.clone(), network: spelled, filter: None }),
+                    1 => ic_cdk_bitcoin_canister::cost_get_balance(&GetBalanceRequest { address: a.clone(), network: spelled, min_confirmations: None }),
+                    2 => ic_cdk_bitcoin_canister::cost_get_block_headers(&GetBlockHeadersRequest { start_height: 0, end_height: None, network: spelled }),
+                    _ => ic_cdk_bitcoin_canister::cost_get_current_fee_percentiles(&GetCurrentFeePercentilesRequest { network: spelled }),
+                };
+                self.stats.oracle_comparisons += 1;
+                if c < maximum {
+                    return Err(violation(
+                        "C16",
+                        "client-cost-below-maximum",
+                        format!("endpoint {endpoint} on {} (request network spelled {:?}): ic-cdk-bitcoin-canister attaches {c} cycles, the canister's default maximum is {maximum}", self.network, spelled),
+                    ));
+                }
             }
         }
         let is_query = matches!(endpoint, 5 | 6);
@@ -675,7 +717,7 @@ impl World {
         use bitcoin::transaction::Version;
         use bitcoin::*;
         let mut rng = Rng::new(seed);
-        let segwit = kind % 2 == 1;
+        let segwit = kind % 2 == 1 || kind == 10;
         let n_in = 1 + rng.below(3) as usize;
         let n_out = if kind == 3 { 0 } else { 1 + rng.below(3) as usize };
         let input = (0..n_in)
@@ -702,7 +744,12 @@ impl World {
             .map(|_| {
                 let e = rng.pick(&self.net.wallet.entries);
                 TxOut {
-                    value: Amount::from_sat(rng.below(1_000_000)),
+                    // any u64 is a well-formed amount (sums of outputs may exceed 2^64)
+                    value: Amount::from_sat(match rng.below(8) {
+                        0 => u64::MAX - rng.below(1000),
+                        1 => 1u64 << 63,
+                        _ => rng.below(1_000_000),
+                    }),
                     script_pubkey: ScriptBuf::from_bytes(e.script.clone()),
                 }
             })
@@ -721,6 +768,15 @@ impl World {
         let base = self.sample_tx(seed, kind);
         let payload: Vec<u8> = match kind {
             0..=3 => base,
+            10 => {
+                // the segwit transaction of this seed with a different first witness item
+                let mut tx: bitcoin::Transaction = bitcoin::consensus::deserialize(&base).expect("sample_tx is well-formed");
+                let mut w = bitcoin::Witness::new();
+                w.push(rng.bytes_between(1, 40));
+                w.push(vec![7u8; 33]);
+                tx.input[0].witness = w;
+                bitcoin::consensus::serialize(&tx)
+            }
             4 => base[..rng.usize_below(base.len())].to_vec(),
             5 => {
                 let mut b = base;
